@@ -76,3 +76,55 @@ def validate(rep, binary, bname, cases, what, tag="tracevm", timeout=120):
         os.remove(path)
     log("[tracevm] %s (%s): %d programs, %d events, TLC %.1fs" % (what, bname, len(spans), nev, tr.wall))
     return len(spans), nev
+
+
+SELFTEST_SRC = """fn g() { throw "x"; }
+fn f() { try { g(); } catch e { print(e); } try { print(1); } finally { print(2); } return 3; }
+var fb = Fiber.new(|| { Fiber.yield(f()); return 4; });
+print(fb.call());
+print(fb.call());
+"""
+
+
+def selftest(binary):
+    """the binding is demonstrated, not assumed: the recorded trace of a fixed program is accepted, and the same trace with
+    one hook's event removed / one logged field corrupted is rejected"""
+    case = {"id": "selftest", "main": SELFTEST_SRC, "gc": "default", "events": EV_VM}
+    r = Pool(binary, "run", workers=1, timeout=60).map([case])[0]
+    evs = [e for e in r.get("events", []) if isinstance(e, dict)]
+    if not evs:
+        raise vlib.ToolError("TraceVm self-test: no events recorded")
+
+    def variant(name, f):
+        out = f([dict(e) for e in evs])
+        path = os.path.join(vlib.WORK, "traces", "tvself-%s-%d.ndjson" % (name, os.getpid()))
+        os.makedirs(os.path.dirname(path), exist_ok=True)
+        write_trace(path, [case], [{"events": out}])
+        tr = run_tlc("TraceVm", "TraceVm.cfg", workers=1, timeout=300, env_extra={"TRACE": path},
+                     jvm=["-Dtlc2.tool.queue.IStateQueue=StateDeque"], tag="tvself", xmx="2g")
+        os.remove(path)
+        return not (tr.violation or "REJECT" in tr.stdout)
+
+    def drop_first(kind):
+        def f(es):
+            i = next(i for i, e in enumerate(es) if e.get("e") == kind)
+            return es[:i] + es[i + 1:]
+        return f
+
+    def bump(kind, field):
+        def f(es):
+            i = next(i for i, e in enumerate(es) if e.get("e") == kind)
+            es[i][field] += 1
+            return es
+        return f
+
+    results = {"unchanged": variant("ok", lambda es: es),
+               "PopHandler hook removed": variant("nopop", drop_first("PopHandler")),
+               "Call hook removed": variant("nocall", drop_first("Call")),
+               "Landed.h corrupted": variant("landh", bump("Landed", "h")),
+               "ufib corrupted": variant("ufib", bump("Return", "ufib")),
+               "UnloadFiber hook removed": variant("nounload", drop_first("UnloadFiber")),
+               "hx corrupted": variant("hx", bump("EndFinally", "hx"))}
+    if not results["unchanged"] or any(v for k, v in results.items() if k != "unchanged"):
+        raise vlib.ToolError("TraceVm self-test failed (accepted: %r) - the trace specification does not bind the hooks" % results)
+    return sorted(k for k in results if k != "unchanged")
